@@ -596,3 +596,26 @@ theorem arrayJoin_rows_gen (o : Oracles) (db : Db) (env : Env) (T : Table) (h : 
   simp [sourceRowsA, sourceRows, h, Alias.text, simpleCol, evalE, colName]
   congr 1
 end Qryn.Sql
+
+namespace Qryn.Sql
+/-- a grouping select with PREWHERE/WHERE: the groups are formed of the rows that pass -/
+theorem evalBodyA_grouped_where (o : Oracles) (db : Db) (env : Env) (ws : List (Alias × Sel)) (cols : List Expr) (f : Expr)
+    (S : Table) (pre wher : Option Expr) (hsrc : (sourceRowsA o db env f).filter (fun r => optB o env r pre && optB o env r wher) = S)
+    (gb : List Expr) (hgb : gb.isEmpty = false) (hv : Option Expr) :
+    evalBodyA o db env (.mk ws false cols (some f) [] pre wher gb hv [] none) =
+      havingFilter o env hv ((groupsBy (gkey o env cols gb) S).map (fun g => grow o env cols g.2)) := by
+  simp only [evalBodyA, List.foldl_nil, hsrc, hgb, Bool.false_and, Bool.false_eq_true, if_false, List.isEmpty_nil, if_true]
+  have : (List.map (fun k =>
+            List.map (fun c => (colName c,
+                  evalAgg o env (List.map (fun r => aliasVals o env cols r ++ r)
+                      (List.filter (fun r => List.map (fun g => evalE o env (aliasVals o env cols r ++ r) g) gb == k) S))
+                    (scope o env cols (colName c)
+                      ((List.filter (fun r => List.map (fun g => evalE o env (aliasVals o env cols r ++ r) g) gb == k) S).headD []))
+                    c)) cols)
+          (List.map (fun r => List.map (fun g => evalE o env (aliasVals o env cols r ++ r) g) gb) S).eraseDups) =
+      (groupsBy (gkey o env cols gb) S).map (fun g => grow o env cols g.2) := by
+    unfold groupsBy gkey grow
+    simp only [List.map_map, Function.comp_def]
+  rw [this]
+  cases hv <;> rfl
+end Qryn.Sql
